@@ -18,7 +18,7 @@ RULE = ("Exhaustive: every string of length <=3 (thorough: <=4 for the mutation 
         "key, update with mapping / pair list / kwargs, setdefault on new/existing key), as cookie name, as cookie value and as redirect target "
         "(str and URL object), each response emitted through both server emulators; plus random op sequences (<=6 mutations) and random longer "
         "strings. Non-trivial = string containing CR, LF, NUL, ';', ',', '=', a quote, backslash or a non-ASCII character; distinct = (string, position).")
-RULE += ' Also: the mutations applied to the header mapping of a response object and of the response a middleware handler gets from next_call(), then sent; the emitted Location, with its percent-escapes undone, is the text asked for (escaped, not dropped); hostile text in the authority part of redirect targets, stored under the header names the library sets itself, cookie name with empty value / delete_cookie, and Cookie attributes assigned after construction (response.cookies[-1].value = ...). update() and |= with a Headers object as the source. A queued cookie assigned (name / value) by another thread while its response is being sent, the switch placed between library lines.'
+RULE += ' Also: the mutations applied to the header mapping of a response object and of the response a middleware handler gets from next_call(), then sent; the emitted Location, with its percent-escapes undone, is the text asked for (escaped, not dropped); hostile text in the authority part of redirect targets, stored under the header names the library sets itself, cookie name with empty value / delete_cookie, and Cookie attributes assigned after construction (response.cookies[-1].value = ...). update() and |= with a Headers object as the source. A queued cookie assigned (name / value) by another thread while its response is being sent, the switch placed between library lines. Redirects with status 300 / 201 / 305 next to the classic ones.'
 ASSUMPTIONS = [
     "constructor-supplied headers and the cookie path/domain attributes are outside the statement's quantifier and are kept clean",
     "a name/value with code points above U+00FF may fail to be emitted (UnicodeEncodeError): nothing is smuggled, so that is tolerated",
